@@ -180,10 +180,9 @@ def run(only=None):
                 raise core.MachineryError("Identity edge dump too small (%d)" % len(g.edges))
             r.notes["spec_transitions_%d" % len(names)] = len(g.edges)
             paths = g.transition_cover(rng)
-            if thorough:
-                paths += g.random_walks(300, 14, rng)
-            elif len(paths) > 900:
+            if not thorough and len(paths) > 900:
                 paths = rng.sample(paths, 900)
+            paths += g.random_walks(600 if thorough else 120, 14, rng)       # other pasts for the same transitions
             if only is not None:
                 paths = []
             covered = set()
